@@ -2,6 +2,8 @@
 //   peel-*   : dialect::peel on connected simple graphs, then Tree::symmetricLayout on every
 //              peeled tree (node boxes dumped for the overlap checker)
 //   comps-*  : Graph::getConnComps on arbitrary (mostly disconnected) simple graphs
+//   layout-* : Tree::symmetricLayout fed directly with rooted trees of 5..60 nodes (random, lopsided,
+//              uneven caterpillars/spiders, the 14-node witness family), all four growth directions
 //   plan-*   : OrthoPlanariser::planarise on orthogonally routed graphs
 //              (plan-manual: routes set by hand on an integer grid, many crossings/bundles;
 //               plan-routed: routes from LeaflessOrthoRouter on a leafless graph)
@@ -328,6 +330,88 @@ static bool runPlanRouted(vh::Rng &r, long k, int n, int m) {
     return true;
 }
 
+// ---- Tree::symmetricLayout fed directly (strict class) ------------------------------------------
+// parent[i] for i >= 1 (node 0 is the root); edges are directed parent -> child as Tree expects.
+static void genLayoutTree(vh::Rng &r, int shape, int n, std::vector<int> &parent) {
+    parent.assign(1, -1);
+    auto add = [&](int p) { parent.push_back(p); return (int) parent.size() - 1; };
+    auto star = [&](int p, int leaves) { int c = add(p); for (int i = 0; i < leaves; ++i) add(c); return c; };
+    auto path = [&](int p, int len) { for (int i = 0; i < len; ++i) p = add(p); return p; };
+    switch (shape) {
+    case 0:   // random recursive tree
+        for (int i = 1; i < n; ++i) add((int) r.range(0, i - 1));
+        break;
+    case 1:   // lopsided: prefer recent (deep) nodes, occasional fan-out
+        for (int i = 1; i < n; ++i) { int lo = std::max(0, i - 1 - (int) r.range(0, 3)); add((int) r.range(lo, i - 1)); }
+        break;
+    case 2: { // caterpillar with uneven legs
+        int spine = std::max(2, n / 3); int last = 0; std::vector<int> sp(1, 0);
+        for (int i = 1; i < spine; ++i) { last = add(last); sp.push_back(last); }
+        while ((int) parent.size() < n) { int at = sp[r.range(0, spine - 1)]; int len = (int) r.range(1, 3);
+            for (int j = 0; j < len && (int) parent.size() < n; ++j) at = add(at); }
+        break; }
+    case 3: { // the witness family: root with several children carrying stars / star+leaf / paths
+        int kids = (int) r.range(3, 6);
+        for (int c = 0; c < kids && (int) parent.size() < n; ++c) {
+            int kind = (int) r.range(0, 3);
+            if (kind == 0) star(0, (int) r.range(1, 4));
+            else if (kind == 1) { int v = add(0); star(v, (int) r.range(1, 3)); int extra = (int) r.range(1, 2); for (int j = 0; j < extra; ++j) add(v); }
+            else if (kind == 2) path(0, (int) r.range(1, 3));
+            else { int v = add(0); path(v, (int) r.range(1, 2)); star(v, (int) r.range(1, 3)); }
+        }
+        break; }
+    case 4: { // spider with uneven legs, some legs ending in a fan
+        int legs = (int) r.range(3, 7);
+        for (int l = 0; l < legs && (int) parent.size() < n; ++l) { int e = path(0, (int) r.range(1, 5)); if (r.coin(1, 3)) for (int j = 0, f = (int) r.range(2, 3); j < f; ++j) add(e); }
+        break; }
+    default: { // two-level random: random subtrees of random recursive shape hung under a few hubs
+        int hubs = (int) r.range(2, 5); std::vector<int> hub;
+        for (int h = 0; h < hubs; ++h) hub.push_back(add(0));
+        while ((int) parent.size() < n) { int base = hub[r.range(0, hubs - 1)]; int sz = (int) r.range(1, 8); std::vector<int> loc(1, base);
+            for (int j = 0; j < sz && (int) parent.size() < n; ++j) loc.push_back(add(loc[r.range(0, (long) loc.size() - 1)])); }
+        break; }
+    }
+}
+
+static void runLayout(vh::Rng &r, const std::vector<int> &parent, int dirIdx, bool uniform) {
+    static const CardinalDir dirs[4] = {CardinalDir::NORTH, CardinalDir::EAST, CardinalDir::SOUTH, CardinalDir::WEST};
+    int n = (int) parent.size();
+    Graph_SP G = std::make_shared<Graph>();
+    std::vector<Node_SP> ns;
+    double maxDim = 0;
+    for (int i = 0; i < n; ++i) {
+        double w = uniform ? 30 : 10 + 2 * r.range(0, 15), h = uniform ? 30 : 10 + 2 * r.range(0, 15);
+        maxDim = std::max(maxDim, std::max(w, h));
+        Node_SP u = Node::allocate(w, h);
+        G->addNode(u);
+        ns.push_back(u);
+    }
+    printf("n");
+    for (auto &u : ns) printf(" %u", u->id());
+    printf("\n");
+    for (int i = 1; i < n; ++i) { G->addEdge(ns[parent[i]], ns[i]); printf("e %u %u\n", ns[parent[i]]->id(), ns[i]->id()); }
+    printf("root %u\n", ns[0]->id());
+    // documented precondition: rankSep (distance between rank centre lines) >= largest node extent
+    double nodeSep, rankSep;
+    int pk = (int) r.range(0, 2);
+    if (pk == 0) { nodeSep = 10; rankSep = 50; }
+    else if (pk == 1) { double iel = G->getIEL(); nodeSep = iel / 4; rankSep = std::max(iel, maxDim); }
+    else { nodeSep = (double) r.range(1, 40) / 2.0; rankSep = maxDim + (double) r.range(0, 120) / 2.0; }
+    bool convex = r.coin(3, 4);
+    CardinalDir d = dirs[dirIdx & 3];
+    printf("layout 0 %s %s %s %d\n", dirName(d), vh::hx(nodeSep).c_str(), vh::hx(rankSep).c_str(), (int) convex);
+    fflush(stdout);
+    Tree tree(G, ns[0]);
+    printf("tsize %zu\n", tree.size());
+    tree.symmetricLayout(d, nodeSep, rankSep, convex);
+    for (auto p : G->getNodeLookup()) {
+        BoundingBox bb = p.second->getBoundingBox();
+        printf("box 0 %u %s %s %s %s\n", p.first, vh::hx(bb.x).c_str(), vh::hx(bb.X).c_str(),
+               vh::hx(bb.y).c_str(), vh::hx(bb.Y).c_str());
+    }
+    printf("laid 0 %d\n", (int) tree.isSymmetrical());
+}
+
 int main(int argc, char **argv) {
     vh::Args a = vh::parseArgs(argc, argv);
     bool thorough = (a.tier == "thorough");
@@ -480,6 +564,36 @@ int main(int argc, char **argv) {
         int n = (int) r.range(3, thorough ? 14 : 8);
         int m = (int) r.range(0, n);
         runPlanRouted(r, k, n, m);
+    }
+    // Tree::symmetricLayout on directly built trees of 5..60 nodes (both tiers), all four growth
+    // directions; first the 14-node witness (3-star, star+leaf, two 2-paths) in each direction.
+    {
+        static const int witness[14] = {-1, 0, 1, 1, 1, 0, 5, 6, 6, 5, 0, 10, 0, 12};
+        for (int d = 0; d < 4; ++d, ++k) {
+            if (!a.want(k)) continue;
+            vh::Rng r = vh::caseRng(a.seed, k);
+            std::vector<int> parent(witness, witness + 14);
+            vh::beginCase(k, "layout-witness14");
+            printf("kind layout\n");
+            runLayout(r, parent, d, true);
+            vh::endCase();
+        }
+    }
+    long nLayout = (thorough ? 3000 : 700) * a.scale;
+    if (a.n >= 0) nLayout = a.n / 2;
+    for (long c = 0; c < nLayout; ++c, ++k) {
+        if (!a.want(k)) continue;
+        vh::Rng r = vh::caseRng(a.seed, k);
+        static const char *tags[6] = {"layout-random", "layout-lopsided", "layout-caterpillar", "layout-family14",
+                                      "layout-spider", "layout-hubs"};
+        int shape = (int) (c % 6);
+        int n = (int) r.range(5, 60);
+        std::vector<int> parent;
+        genLayoutTree(r, shape, n, parent);
+        vh::beginCase(k, tags[shape]);
+        printf("kind layout\n");
+        runLayout(r, parent, (int) r.range(0, 3), r.coin());
+        vh::endCase();
     }
     return 0;
 }
